@@ -533,9 +533,25 @@ Definition arr_returns_b (epsr : Z) (k n : nat) (tri : list triple) : bool :=
          end
   end.
 
-(* (epsr k n triples) -> 1 | 0 *)
+(* phases 1-3 leave no pending row: augment has nothing to do *)
+Definition arr_nofree_b (epsr : Z) (k n : nat) (tri : list triple) : bool :=
+  let rows := rows_of n tri in
+  let mi := min_i n tri in
+  let x0 := x_init n mi in
+  let y0 := y_init n x0 in
+  let uv := reduction_transfer Fixed n rows (jflat_of rows) x0 (one_rows n mi) (repeat (Fin 0) n) (v_init n tri) in
+  match (match free_rows n mi with
+         | [] => Some (x0, y0, snd uv, free_rows n mi)
+         | _ => arr_passes k (arr_fuel n tri) (Fin 0) (Fin epsr) n rows (x0, y0, snd uv, free_rows n mi)
+         end) with
+  | Some (_, _, _, []) => true
+  | _ => false
+  end.
+
+(* (epsr k n triples) -> 2 (returns, no pending row) | 1 (returns) | 0 *)
 Definition entry_arr (a : sx) : sx :=
-  I (if arr_returns_b (as_Z (arg 0 a)) (as_nat (arg 1 a)) (as_nat (arg 2 a)) (as_triples (arg 3 a)) then 1 else 0).
+  let epsr := as_Z (arg 0 a) in let k := as_nat (arg 1 a) in let n := as_nat (arg 2 a) in let tri := as_triples (arg 3 a) in
+  I (if arr_nofree_b epsr k n tri then 2 else if arr_returns_b epsr k n tri then 1 else 0).
 
 (* (n1 n2 x labs1 labs2) -> pairs of label numbers *)
 Definition entry_track (a : sx) : sx :=
